@@ -12,6 +12,7 @@ mod util;
 
 mod c01;
 mod c02;
+mod c03;
 mod chan;
 
 #[global_allocator]
@@ -60,6 +61,7 @@ fn main() {
         let out = match id.as_str() {
             "C01" => c01::replay(&v["replay"]),
             "C02" => c02::replay(&v["replay"]),
+            "C03" => c03::replay(&v["replay"]),
             _ => {
                 eprintln!("no replay for {}", id);
                 std::process::exit(2);
@@ -79,6 +81,7 @@ fn main() {
         match args[1].to_uppercase().as_str() {
             "C01" => c01::run(thorough),
             "C02" => c02::run(thorough),
+            "C03" => c03::run(thorough),
             other => {
                 eprintln!("unknown check {}", other);
                 2
